@@ -135,17 +135,17 @@ Proof.
 Qed.
 Print Assumptions c06_artnet_any_length.
 
-(* history level: any sequence of datagrams, each followed in the receive buffer by arbitrary stale bytes, from any
+(* history level: any sequence of datagrams (each with its sender's address), each followed in the receive buffer by arbitrary stale bytes, from any
    initial state: no datagram ends in a hazard, and every output and the final state are the same whatever the
    stale tails are *)
-Theorem c06_artnet_history : forall (h1 h2 : list (unit * list N * list N)) s,
+Theorem c06_artnet_history : forall (h1 h2 : list (N * list N * list N)) s,
   Forall (fun x => let '(_, d, t) := x in bytes_ok d = true /\ bytes_ok t = true /\ len d <= 1228) h1 ->
   Forall2 (fun x y => fst x = fst y) h1 h2 ->
-  (exists r, run_hist (fun (_ : unit) n st => artnet_handle n st) (fun _ r => fst r) s h1 = Done r) /\
-  run_hist (fun (_ : unit) n st => artnet_handle n st) (fun _ r => fst r) s h1 = run_hist (fun (_ : unit) n st => artnet_handle n st) (fun _ r => fst r) s h2.
+  (exists r, run_hist (fun from n st => artnet_handle n (set_from st from)) (fun _ r => fst r) s h1 = Done r) /\
+  run_hist (fun from n st => artnet_handle n (set_from st from)) (fun _ r => fst r) s h1 = run_hist (fun from n st => artnet_handle n (set_from st from)) (fun _ r => fst r) s h2.
 Proof.
   intros h1 h2 s Hok H2.
-  assert (Hb : forall i n st, n <= AN_PACKET_SIZE -> bounded n ((fun (_ : unit) n st => artnet_handle n st) i n st)) by (intros; apply artnet_bounded; assumption).
+  assert (Hb : forall i n st, n <= AN_PACKET_SIZE -> bounded n ((fun from n st => artnet_handle n (set_from st from)) i n st)) by (intros; apply artnet_bounded; assumption).
   split.
   - apply (hist_safe AN_PACKET_SIZE _ _ Hb). exact Hok.
   - apply (hist_stale_free AN_PACKET_SIZE _ _ Hb); assumption.
@@ -155,6 +155,6 @@ Print Assumptions c06_artnet_history.
 (* an ArtDmx for universe 0x23 on net 4 carrying 3 slots, then stale bytes: accepted, buffer replaced *)
 Example ex_artnet_handled :
   run ([65; 114; 116; 45; 78; 101; 116; 0; 0; 80] ++ [0; 14; 0; 1; 35; 4; 0; 3] ++ [7; 8; 9] ++ repeat 165 1207)
-      (artnet_handle 21 (mk_an_state 4 35 37 None [] false true 256 None))
-  = Done (mk_an_state 4 35 37 (Some [7; 8; 9]) [] false true 256 None, [EvData 0]).
+      (artnet_handle 21 (mk_an_state 4 35 37 None [] false true 256 None 2 false (None, None) (None, None)))
+  = Done (mk_an_state 4 35 37 (Some [7; 8; 9]) [] false true 256 None 2 false (Some (2, Some [7; 8; 9]), None) (None, None), [EvData 0]).
 Proof. vm_compute. reflexivity. Qed.
